@@ -11,9 +11,10 @@ ShapesOf(k) ==
     [] k = "ellipse" -> {[kind |-> k, p1 |-> a, p2 |-> b, p3 |-> 0, p4 |-> 0, ang |-> g] : a \in Sizes, b \in Sizes, g \in Angles}
     [] k = "rect"    -> {[kind |-> k, p1 |-> w, p2 |-> h, p3 |-> 0, p4 |-> 0, ang |-> g] : w \in Sizes, h \in Sizes, g \in Angles}
     [] k = "cann"    -> {[kind |-> k, p1 |-> a, p2 |-> b, p3 |-> 0, p4 |-> 0, ang |-> 0] : a \in Sizes, b \in Sizes}
-    [] k = "eann"    -> {[kind |-> k, p1 |-> a, p2 |-> 2 * a, p3 |-> b, p4 |-> 2 * b, ang |-> g] : a \in Sizes, b \in Sizes, g \in Angles}
-    [] k = "rann"    -> {[kind |-> k, p1 |-> a, p2 |-> 2 * a, p3 |-> b, p4 |-> 2 * b, ang |-> g] : a \in Sizes, b \in Sizes, g \in Angles}
-Valid(x) == CASE x.kind = "cann" -> x.p1 < x.p2 [] x.kind = "ellipse" -> x.p1 >= x.p2 [] OTHER -> TRUE
+    \* inner b / h are independent parameters (not only the proportional default)
+    [] k = "eann"    -> {[kind |-> k, p1 |-> a, p2 |-> 2 * a, p3 |-> bi, p4 |-> 2 * b, ang |-> g] : a \in Sizes, b \in Sizes, bi \in Sizes, g \in Angles}
+    [] k = "rann"    -> {[kind |-> k, p1 |-> a, p2 |-> 2 * a, p3 |-> bi, p4 |-> 2 * b, ang |-> g] : a \in Sizes, b \in Sizes, bi \in Sizes, g \in Angles}
+Valid(x) == CASE x.kind = "cann" -> x.p1 < x.p2 [] x.kind = "ellipse" -> x.p1 >= x.p2 [] x.kind \in {"eann", "rann"} -> x.p3 < x.p4 [] OTHER -> TRUE
 Init == /\ sh \in {x \in UNION {ShapesOf(k) : k \in Kinds} : Valid(x)}
         /\ cx \in 0..(Q - 1) /\ cy \in 0..(Q - 1) /\ s \in Subs /\ done = FALSE
         /\ (sh.p1 + 3 * sh.p2 + 5 * cx + 7 * cy + sh.ang + s) % NShards = Shard
